@@ -8,12 +8,19 @@ open Proto RegModel RegClose
 
 def H : List UInt8 → List UInt8 := Blake2.blake2b256L
 
-/-- `c06.close entries=[(vkhex,stake)…]` (arrival order) → `ok <root> <n> <total> [slot of each entry]` -/
+def hasDup : List Nat → Bool
+  | [] => false
+  | x :: r => r.contains x || hasDup r
+
+/-- `c06.close entries=[(vkhex,stake)…]` (arrival order) → `ok <root> <n> <total> [slot of each entry]`;
+`err register` when a verification key arrives twice: `KeyRegistration::register_by_entry` refuses a key that is
+already registered, whatever the stake (the harness stops at that arrival and never closes) -/
 def closeReq (r : Req) : Option String := do
   let es ← (← r.list "entries").mapM fun e =>
     match e with
     | .l [k, s] => do pure ({ stake := ← s.nat?, vk := beNat (← hexDecode (← k.str?)) } : Entry)
     | _ => none
+  if hasDup (es.map (·.vk)) then pure "err register" else
   pure (match avk H es with
     | .ok (root, n, total) =>
       let slots := es.map fun e => (slot es e).getD 999999
